@@ -69,7 +69,12 @@ def make_wf(n, edges, data_mode, vol_mode):
         nodes.append([IDS[i], 100 + 7 * i, d])
     es = []
     for i, j in edges:
-        vol = (3 * i + j) % 4 if vol_mode == 0 else 5 + i * 10 + j
+        if vol_mode == 2:
+            # zero-volume edges next to non-zero ones (and all-zero when the
+            # DAG has edges of one parity only)
+            vol = 0 if (i + j) % 2 else 4 + j
+        else:
+            vol = (3 * i + j) % 4 if vol_mode == 0 else 5 + i * 10 + j
         es.append([IDS[i], IDS[j], vol])
     return {"nodes": nodes, "edges": es}
 
@@ -251,11 +256,12 @@ def run(rep, tier, seed):
         for edges in all_dags(n):
             if n == 5:
                 combos = [("some", 0, ("emu", 7)), ("none", 1, ("a", 0)),
-                          ("all", 0, ("a", 3))]
+                          ("all", 0, ("a", 3)), ("some", 2, ("a", 0))]
             else:
                 combos = [(dm, vm, nc) for dm in ("none", "some", "all")
                           for vm in (0, 1)
                           for nc in (("a", 0), ("emu", 7))]
+                combos += [("some", 2, ("a", 0)), ("none", 2, ("emu", 7))]
             for dm, vm, nc in combos:
                 items.append({"engine": "E3", "n": n, "edges": edges,
                               "data": dm, "vol": vm, "name": nc[0],
